@@ -78,7 +78,8 @@ func sentinelsOf(fn *ssa.Function) []string {
 				}
 				// a helper of the library that only builds an error
 				if sc := x.Call.StaticCallee(); sc != nil && sc != fn && sc.Pkg != nil && isLibPkgPath(sc.Pkg.Pkg.Path()) && sc.Blocks != nil && len(sc.Blocks) <= 2 {
-					if res := sc.Signature.Results(); res.Len() == 1 && isErrorType(res.At(0).Type()) {
+					// ... an error, or a result object carrying one
+					if res := sc.Signature.Results(); res.Len() == 1 && (isErrorType(res.At(0).Type()) || resultTypeHasErrorField(res.At(0).Type())) {
 						allInstrs(sc, func(in2 ssa.Instruction) {
 							if c2, ok := in2.(*ssa.Call); ok {
 								if g := errorfWraps(c2); g != nil {
